@@ -8,6 +8,7 @@ COQ_MODULE = "Prop_C05"
 THEOREMS = ['C05_every_history', 'C05_every_history_partial', 'C05_hold_accounting', 'C05_guard_drop_exact', 'C05_collection_unlock_exact', "C05_every_schedule_all_released", "C05_every_schedule_release_by_holder"]
 CASE_MODULES = ["Pf_Hist", "Monitors", "Conc", "BMonitors"]
 CHECK_WITHOUT_PROOF = True
+SHRINK_GUARD = 0      # which of the booleans evaluated with the verdict certifies the theorem's hypotheses
 TRUSTED = common.TRUSTED_COMMON
 ASSUMPTIONS = common.ASSUME_COMMON
 RULE = 'random API histories (1-3 threads, 4-14 calls, API-call-atomic) over a random universe of single locks, poisonable wrappers and collections of every kind / container / nesting depth <= 2 sharing leaves, with random holds of other threads present from the start; observation = release operations with audit verdicts + hold table; non-trivial = at least one release; distinct = scenario text; plus interleaved (Level B) programs of 2-4 threads at raw-operation granularity (as for C01 / C09, half of them with a retrying collection under contention), judged by the replaying monitor of BMonitors.v (holds per thread at every call return)'
